@@ -176,8 +176,11 @@ def polygon_triangulate(tri_idx, *args):
     return triangles
 
 
-def make_quad_mesh(points, size_u, size_v):
+def make_quad_mesh(points, size_u, size_v, **kwargs):
     """ Generates a mesh of quadrilateral elements.
+
+    Keyword arguments which are not used by this function (e.g. ``trims``, ``vertex_spacing``) are ignored, so that
+    :py:class:`.QuadTessellate` can be set as the tessellation component of a surface.
 
     :param points: list of points
     :type points: list, tuple
@@ -192,10 +195,17 @@ def make_quad_mesh(points, size_u, size_v):
     vertex_idx = 0
     quad_idx = 0
 
+    # Parametric domain of the input points
+    domain = kwargs.get('domain', ((0.0, 1.0), (0.0, 1.0)))
+    u_jump = (domain[0][1] - domain[0][0]) / float(max(size_u - 1, 1))
+    v_jump = (domain[1][1] - domain[1][0]) / float(max(size_v - 1, 1))
+
     # Generate vertices
     vertices = []
     for pt in points:
         vrt = Vertex(*pt, id=vertex_idx)
+        vrt.uv = [min(domain[0][0] + (vertex_idx // size_v) * u_jump, domain[0][1]),
+                  min(domain[1][0] + (vertex_idx % size_v) * v_jump, domain[1][1])]
         vertices.append(vrt)
         vertex_idx += 1
 
